@@ -11,6 +11,8 @@ import json
 import multiprocessing
 import os
 import random
+import sys
+import time
 
 from . import deps_render as R
 from .common import (NCPU, SPEC, MachineryError, Scratch, chunks, run_parallel, run_tlc, write_cfg)
@@ -18,7 +20,7 @@ from .common import (NCPU, SPEC, MachineryError, Scratch, chunks, run_parallel, 
 LEVEL = "model_checking"
 AREA = os.path.join(SPEC, "deps")
 BATCH = 32
-NPROC = max(2, min(12, NCPU - 2))
+NPROC = int(os.environ.get("VERIF_NPROC", "0")) or max(2, min(8, NCPU // 2))   # concurrent processes
 
 
 # ------------------------------------------------------------------------------------------------
@@ -27,9 +29,9 @@ NPROC = max(2, min(12, NCPU - 2))
 
 def _mc(chk, sc):
     invs = ["TypeOK", "NeededSorted", "PrefixRespects", "ScannedNotReady", "NeverStuck", "AtDone", "CycleDefsAgree"]
-    plan = [(1, True, 1), (2, True, 1), (3, True, 2), (4, True, 6)]
+    plan = [(1, True, 1), (2, True, 1), (3, True, 1), (4, True, min(4, NPROC))]
     if chk.tier == "thorough":
-        plan.append((5, False, 10))
+        plan.append((5, False, NPROC))
 
     def one(nn, selfloops, workers):
         cfg = sc.file("order%d.cfg" % nn)
@@ -39,7 +41,7 @@ def _mc(chk, sc):
         return nn, run_tlc(os.path.join(AREA, "DepsOrderMC.tla"), cfg, workers=workers, coverage=True,
                            timeout=2400, metadir=os.path.join(sc.sub("meta"), "mc%d" % nn))
 
-    results = run_parallel([lambda a=a: one(*a) for a in plan], nproc=len(plan))
+    results = run_parallel([lambda a=a: one(*a) for a in plan], nproc=2)
     cover = {}
     for nn, res in results:
         chk.add_tlc(res, part="mc-order-n%d" % nn)
@@ -83,26 +85,33 @@ def _gen(sc, fam, segs, seed, nproc):
 
     def runx(k, plan):
         path = sc.file("plan-%s-%d.json" % (fam, k))
+        out = sc.file("cases-%s-%d.ndjson" % (fam, k))
         with open(path, "w") as f:
             json.dump(plan, f)
-        env = {"GEN_FAM": fam, "GEN_SALT": seed % 1000, "GEN_TAG": "%s%d." % (fam[:2], k), "GEN_PLAN": path}
+        env = {"GEN_FAM": fam, "GEN_SALT": seed % 1000, "GEN_TAG": "%s%d." % (fam[:2], k), "GEN_PLAN": path,
+               "GEN_OUT": out}
         res = run_tlc(os.path.join(AREA, "DepsGen.tla"), cfgx, workers=1, env=env, timeout=2400,
                       metadir=os.path.join(sc.sub("meta"), "genx-%s-%d" % (fam, k)))
-        if not res.completed:
+        told = [j["emitted"] for j in res.printed_json() if "emitted" in j]
+        if not res.completed or len(told) != 1:
             raise MachineryError("DepsGen did not complete:\n" + res.error_trace_tail(30))
-        return res
+        with open(out) as f:
+            got = [json.loads(l) for l in f if l.strip()]
+        if len(got) != told[0]:
+            raise MachineryError("DepsGen wrote %d cases but reports %d" % (len(got), told[0]))
+        return res, got
 
     results = run_parallel([lambda k=k, pl=pl: runx(k, pl) for k, pl in enumerate(plans)], nproc=NPROC)
     cases, seen = [], set()
-    for res in results:
-        for c in res.printed_json():
+    for _, got in results:
+        for c in got:
             key = json.dumps(c["nodes"], sort_keys=True)
             if key in seen:
                 continue
             seen.add(key)
             c["id"] = "%s#%d" % (c["id"], len(cases))
             cases.append(c)
-    return cases, results
+    return cases, [r for r, _ in results]
 
 
 def _plan(fam, tier, seed):
@@ -140,10 +149,18 @@ def _plan(fam, tier, seed):
 _POOL = None
 
 
+def _dbg(msg):
+    if os.environ.get("VERIF_DEBUG"):
+        print("[c15] " + msg, file=sys.stderr)
+
+
 def _pool():
+    """The compiler is imported ONCE, here in the parent (it costs several CPU-seconds: a 2.6 MB
+    parser table is compiled from source because nothing may be cached), then the workers are forked."""
     global _POOL
     if _POOL is None:
         from . import deps_run
+        deps_run._init()
         ctx = multiprocessing.get_context("fork")
         _POOL = ctx.Pool(NPROC, initializer=deps_run._init)
     return _POOL
@@ -180,14 +197,19 @@ def _observe(fam, cases):
             else:
                 got.update(r["obs"])
         if retry:
+            _dbg("%s: %d cases re-run one per module" % (fam, len(retry)))
             for r in _run_jobs([{"fam": fam, "cases": [byid[i]], "full": full} for i in retry]):
                 got.update(r["obs"])
         return got
 
+    t0 = time.time()
     obs = round_(cases, False)
+    _dbg("%s round 1: %d cases %.1fs" % (fam, len(cases), time.time() - t0))
     clean = [c for c in cases if not (obs[c["id"]]["groups"] or obs[c["id"]]["other"] or obs[c["id"]]["hang"] or obs[c["id"]]["exc"])]
     if clean:
+        t0 = time.time()
         obs.update(round_(clean, True))
+        _dbg("%s round 2: %d cases %.1fs" % (fam, len(clean), time.time() - t0))
     return obs
 
 
@@ -235,12 +257,16 @@ def _decide(sc, name, records, nshards=None):
 
 def _family(chk, sc, fam):
     segs, nproc = _plan(fam, chk.tier, chk.seed)
+    t0 = time.time()
     cases, gres = _gen(sc, fam, segs, chk.seed, nproc)
+    _dbg("%s gen: %d cases %.1fs" % (fam, len(cases), time.time() - t0))
     for r in gres:
         chk.add_tlc(r, part="gen-" + fam)
     obs = _observe(fam, cases)
     records = [dict(c, obs=obs[c["id"]]) for c in cases]
+    t0 = time.time()
     fails, sums, cres = _decide(sc, fam, records)
+    _dbg("%s decide: %.1fs" % (fam, time.time() - t0))
     for r in cres:
         chk.add_tlc(r, part="check-" + fam)
     byid = {r["id"]: r for r in records}
